@@ -90,6 +90,7 @@ def run(c):
         meta.append(tag)
 
     searchfail = []
+    zero_mass_cases = 0
 
     def fsum_com(ms, xs, na):
         M = math.fsum(ms[:na])
@@ -98,6 +99,7 @@ def run(c):
     for case in range(ncases):
         rng = c.rng.fork()
         n, na, ms, comps = gen_system(rng, big=(case % 10 == 9))
+        zero_mass_cases += any(m == 0.0 for m in ms[1:na])
         allc = COMPS_POS + COMPS_VEL + COMPS_ACC
         src = arr(n); setp(src, ms, comps, allc)
         N, NA = ctypes.c_uint(n), ctypes.c_uint(na)
@@ -338,6 +340,9 @@ def run(c):
         ncalls += r["ncalls"]
         seen_routines |= set(r["routines"])
         c.count(("callsite", r["integ"], json.dumps(r["opts"], sort_keys=True), r["safe"], r["split"]), nontrivial=r["split"] != "all")
+        # a call that also covers the variational particles behind the real ones (N > N_real) acts on the real
+        # particles exactly like (N_real, N_active); the variational sets are re-transformed by their own calls
+        r["pairs"] = sorted({(min(pr[0], r["N"]), pr[1]) for pr in r["pairs"]})
         if len(r["pairs"]) > 1:
             searchfail.append(("integrator call sites hand different (N, N_active) splits to a transformation and its inverse",
                                dict(config=r, note="within one run of a fixed particle set every reb_particles_transform_* call must use the same split, otherwise forward and inverse maps are not mutual inverses")))
@@ -356,6 +361,29 @@ def run(c):
             searchfail.append(("integrator run is not covariant under a shift + boost of the whole system (the heliocentric/Jacobi maps inside the integrator lose the centre of mass)",
                                dict(cov=r, shift=[10.0, -7.0, 3.0], boost=[0.3, -0.2, 0.1], tolerance=tol)))
     c.cov["frame_covariance_worst_abs_error"] = covw
+    dims = {"N_active<N (type 0)": 0, "N_active<N (type 1)": 0, "variational particles present": 0, "dt<0": 0, "safe_mode=0": 0,
+            "correctors/kernels": 0, "COM offset + boost": 0, "close encounter / rejected step": 0, "zero-mass active body": 0, "N>=50": 0}
+    for r in sites:
+        if "error" in r:
+            continue
+        dims["N_active<N (type 0)"] += r["split"] == "tp0"
+        dims["N_active<N (type 1)"] += r["split"] == "tp1"
+        dims["variational particles present"] += r["split"] == "var"
+        dims["dt<0"] += r["split"] == "negdt"
+        dims["safe_mode=0"] += r["safe"] == 0
+        dims["correctors/kernels"] += bool(r["opts"].get("corrector")) or r["opts"].get("kernel", "default") != "default"
+    for r in wres["cov"]:
+        if "error" in r:
+            continue
+        dims["COM offset + boost"] += 1
+        dims["dt<0"] += bool(r["opts"].get("_negdt"))
+        dims["close encounter / rejected step"] += r["kind"] in ("encounter", "approach", "eccentric", "first-step-scan")
+    dims["zero-mass active body"] = zero_mass_cases
+    dims["N>=50"] = hist.get(50, 0)
+    c.cov["dimensions"] = dims
+    for k, v in dims.items():
+        if v == 0:
+            c.corr_break("dimension not covered: " + k)
     c.cov["callsite_configs_traced"] = len(sites)
     c.cov["callsite_transform_calls_traced"] = ncalls
     c.cov["callsite_routines_seen"] = sorted(seen_routines)
